@@ -22,6 +22,7 @@ import (
 	"errors"
 	"strings"
 	"sync"
+	"sync/atomic"
 	"syscall"
 	"time"
 )
@@ -41,6 +42,7 @@ type server struct {
 	opts        *options
 	onQuit      func(err error)
 	connections sync.Map // key=fd, value=connection
+	closed      uint32   // set by Close; read by the EMFILE retry loop
 }
 
 // Run this server.
@@ -60,6 +62,7 @@ func (s *server) Run() (err error) {
 
 // Close this server with deadline.
 func (s *server) Close(ctx context.Context) error {
+	atomic.StoreUint32(&s.closed, 1)
 	s.operator.Control(PollDetach)
 	s.ln.Close()
 
@@ -129,6 +132,10 @@ func (s *server) OnRead(p Poll) error {
 			for {
 				if retryTimeIndex > 0 {
 					time.Sleep(retryTimes[retryTimeIndex] * time.Millisecond)
+				}
+				if atomic.LoadUint32(&s.closed) != 0 {
+					// shut down during the back-off: the listener's descriptor number is not ours any more
+					return
 				}
 				verifPoint(vpEmfileRetry, s, retryTimeIndex)
 				conn, err := s.ln.Accept()
